@@ -166,6 +166,9 @@ impl Property for C10 {
     }
 
     fn generate(&self, rng: &mut Rng, tier: Tier) -> Case {
+        if rng.chance(1, 5) {
+            return gen_computed(rng, tier);
+        }
         let mode_whole = rng.chance(1, 3);
         let two = rng.chance(1, 2);
         let mut case = Case::new("C10", if mode_whole { "whole" } else { "selected" });
@@ -266,6 +269,9 @@ impl Property for C10 {
     }
 
     fn check(&self, case: &Case, ctx: &mut Ctx) -> Option<Violation> {
+        if case.family == "computed" {
+            return check_computed(case, ctx);
+        }
         if has_opt(&case.opts, "--unique") || case.pieces.iter().any(|p| p.kind == Kind::Raw || (p.kind == Kind::Rec && p.id.is_none())) {
             ctx.stats.invalid = true;
             return None;
@@ -516,4 +522,182 @@ fn has_opt_value(opts: &[Vec<String>], v: &str) -> bool {
 
 fn selected_mode(case: &Case) -> bool {
     case.family == "selected"
+}
+
+// ---------------------------------------------------------------------------------------
+// Computed selections: the harness does not know which computed values are equal, so the
+// oracle is jawk's own `=` (the property: "duplicates exactly when the = function says
+// they are equal") applied to the rows the two runs print.
+
+const COMPUTED: &[&str] = &[
+    "(floor (/ .n 10))", "(round .n)", "(ceil (/ .id 2))", "(% .id 3)", "(size .arr)", "(len .s)", ".g", ".s",
+    "(stringify .n)", "(abs .n)", "(floor .n)", "(/ .id 2)", "(* .n 1.0)", "(+ .n 0.5)", "(as_number .s)", ".h", ".t",
+    ".obj", "(round (/ .n 3))", "(floor (/ .id 2))", "(? (> .n 0) 1 1.0)", "(min .n 3)", "(max .n 3)",
+];
+
+fn gen_computed(rng: &mut Rng, tier: Tier) -> Case {
+    let mut case = Case::new("C10", "computed");
+    let n = rng.range(2, if tier == Tier::Thorough { 20 } else { 10 });
+    let mut vals: Vec<Val> = Vec::new();
+    for i in 0..n {
+        if !vals.is_empty() && rng.chance(1, 3) {
+            // the same value again (a real duplicate), freshly spelled
+            let v = vals[rng.below(vals.len())].clone();
+            case.pieces.push(Piece::rec(spell(&v, rng, 2), i as u32));
+            vals.push(v);
+        } else {
+            let mut v = gen_schema_record(rng, (i % 4) as u32);
+            if let Val::Obj(ms) = &mut v {
+                // small numbers so that computed values collide often
+                for (k, x) in ms.iter_mut() {
+                    if k == "n" {
+                        *x = if rng.chance(1, 2) { Val::Int(rng.range_i64(0, 40) as i128) } else { Val::Dec(rng.range_i64(1, 399) * 10 + 5, 1) };
+                    }
+                }
+            }
+            case.pieces.push(Piece::rec(spell(&v, rng, 1), i as u32));
+            vals.push(v);
+        }
+        case.pieces.push(Piece::gap(vec![b'\n']));
+    }
+    let split = rng.chance(1, 4);
+    if split {
+        case.opts.push(vec!["--split-by=.arr".into()]);
+    }
+    // titles that are also common values
+    let titles = ["a", "b"];
+    let k = rng.range(1, 2);
+    for t in titles.iter().take(k) {
+        let e = if split { *rng.pick(&["^.id", ".", "^.g", "(stringify .)", "^.n", "(floor (/ ^.n 10))"]) } else { *rng.pick(COMPUTED) };
+        case.opts.push(vec!["--select".into(), format!("{e}={t}")]);
+    }
+    if rng.chance(1, 6) {
+        case.opts.push(vec![format!("--filter={}", rng.pick(&["(> .n 5)", "(string? .s)", "true"]))]);
+    }
+    case.opts.push(vec!["--style=consise".into()]);
+    // rows are read back to ask `=` about them, so their printed form has to be injective:
+    // raw UTF-8 (the escaped form writes code points beyond the BMP with five hex digits,
+    // which collides with a BMP character followed by a digit)
+    case.opts.push(vec!["--utf8-strings".into()]);
+    case.hash_seeds = (0..2).map(|_| rng.next_u64() >> 1).collect();
+    case.delivery = gen_delivery(rng, case.stream().len());
+    case
+}
+
+fn rows_of(out: &[u8]) -> Vec<Vec<u8>> {
+    out.split(|b| *b == b'\n').filter(|l| !l.is_empty()).map(<[u8]>::to_vec).collect()
+}
+
+fn check_computed(case: &Case, ctx: &mut Ctx) -> Option<Violation> {
+    if has_opt(&case.opts, "--unique") || !has_opt(&case.opts, "--style=consise") || !has_opt(&case.opts, "--utf8-strings") {
+        ctx.stats.invalid = true;
+        return None;
+    }
+    let stream = case.stream();
+    let plain = ctx.exec(ref_spec(case, &stream));
+    if !plain.outcome.is_ok() {
+        ctx.stats.invalid = true;
+        ctx.jawk_panic = None;
+        return None;
+    }
+    let r_rows = rows_of(&plain.obs.stdout);
+    if r_rows.len() > 40 {
+        ctx.stats.invalid = true;
+        return None;
+    }
+    let mut uniq = case.clone();
+    uniq.opts.push(vec!["--unique".into()]);
+    let mut spec = case_spec(&uniq, &stream);
+    spec.hash_seed = case.hash_seeds.first().copied();
+    let u = ctx.exec(spec);
+    if !u.outcome.is_ok() {
+        if matches!(u.outcome, crate::run::Outcome::Panic(..)) {
+            return None;
+        }
+        return viol("C10.exactly-once", format!("--unique run failed: {}", u.outcome.describe()));
+    }
+    let q_rows = rows_of(&u.obs.stdout);
+    // 1. the unique output is a subsequence of the plain output (first occurrences keep
+    //    their order, nothing is invented); match greedily and remember who was dropped
+    let mut kept_at: Vec<usize> = Vec::new();
+    let mut j = 0;
+    for (i, r) in r_rows.iter().enumerate() {
+        if j < q_rows.len() && *r == q_rows[j] {
+            kept_at.push(i);
+            j += 1;
+        }
+    }
+    if j != q_rows.len() {
+        return viol(
+            "C10.exactly-once",
+            format!("the --unique output is not a sub-sequence of the output without --unique: {} vs {}", show(&u.obs.stdout), show(&plain.obs.stdout)),
+        );
+    }
+    let dropped: Vec<usize> = (0..r_rows.len()).filter(|i| !kept_at.contains(i)).collect();
+    ctx.stats.fault("rows-removed-by-unique", dropped.len() as u64);
+    if !dropped.is_empty() {
+        ctx.stats.nontrivial = true;
+    }
+    // 2./3. ask jawk's own `=` about the printed rows
+    let mut pairs: Vec<(usize, usize)> = Vec::new(); // indices into r_rows
+    for a in 0..kept_at.len() {
+        for b in (a + 1)..kept_at.len() {
+            pairs.push((kept_at[a], kept_at[b]));
+        }
+    }
+    let kept_pairs = pairs.len();
+    for d in &dropped {
+        for k in kept_at.iter().filter(|k| **k < *d) {
+            pairs.push((*k, *d));
+        }
+    }
+    if pairs.is_empty() {
+        return None;
+    }
+    let mut input = Vec::new();
+    for (a, b) in &pairs {
+        input.push(b'[');
+        input.extend_from_slice(&r_rows[*a]);
+        input.push(b',');
+        input.extend_from_slice(&r_rows[*b]);
+        input.extend_from_slice(b"]\n");
+    }
+    let mut eqc = Case::new("C10", "eq");
+    eqc.opts = vec![vec!["--select".into(), "(= #0 #1)=e".into()], vec!["--style=consise".into()]];
+    let e = ctx.exec(ref_spec(&eqc, &input));
+    if !e.outcome.is_ok() {
+        ctx.stats.invalid = true;
+        ctx.jawk_panic = None;
+        return None;
+    }
+    let answers = rows_of(&e.obs.stdout);
+    if answers.len() != pairs.len() {
+        ctx.stats.invalid = true;
+        ctx.stats.probe("skipped: printed rows did not read back as pairs");
+        return None;
+    }
+    let is_true = |i: usize| answers[i] == b"{\"e\":true}";
+    for i in 0..kept_pairs {
+        if is_true(i) {
+            return viol(
+                "C10.exactly-once",
+                format!(
+                    "two rows of the --unique output are equal by `=`: {} and {}",
+                    show(&r_rows[pairs[i].0]),
+                    show(&r_rows[pairs[i].1])
+                ),
+            );
+        }
+    }
+    for d in &dropped {
+        let any = (kept_pairs..pairs.len()).any(|i| pairs[i].1 == *d && is_true(i));
+        if !any {
+            return viol(
+                "C10.exactly-once",
+                format!("--unique removed the row {} although `=` says it equals no earlier row", show(&r_rows[*d])),
+            );
+        }
+    }
+    ctx.stats.probe("computed selections judged by jawk's own =");
+    None
 }
